@@ -83,7 +83,10 @@ class SymSet:
 
     def pyvc_binop(self, it, op, other, reflected):
         try:
-            o = to_symset(it, other, self.sort)
+            # a None element of a python set cannot be a member of a set of strings / ints: as the subtrahend of a difference or an operand
+            # of an intersection it is dropped (sound); in a union it has no representation (Unsupported -> UNDECIDED)
+            drop = (isinstance(op, ast.Sub) and not reflected) or isinstance(op, ast.BitAnd)
+            o = to_symset(it, other, self.sort, drop_none=drop)
         except Unsupported:
             return NotImplemented
         a, b = (o.term, self.term) if reflected else (self.term, o.term)
@@ -151,7 +154,7 @@ class SymSeq:
         return f'SymSeq({self.name})'
 
 
-def to_symset(it, v, sort) -> SymSet:
+def to_symset(it, v, sort, drop_none=False) -> SymSet:
     v = unbox(v)
     if isinstance(v, SymSet):
         return v
@@ -160,6 +163,10 @@ def to_symset(it, v, sort) -> SymSet:
     if isinstance(v, (list, tuple, set, frozenset)):
         t = z3.EmptySet(sort)
         for x in v:
+            if unbox(x) is None:
+                if drop_none:
+                    continue
+                raise Unsupported('None as an element of a symbolic set of strings / ints')
             t = z3.SetAdd(t, elem_term(x, sort))
         return SymSet(t, sort)
     if isinstance(v, NameSetList):
